@@ -66,8 +66,7 @@ type Model struct {
 }
 
 func StartModel(driver string) *Model {
-	// extracted list functions are not tail recursive: give the model process an unlimited stack where the system allows it
-	cmd := exec.Command("/bin/sh", "-c", `ulimit -s unlimited 2>/dev/null || ulimit -s 4000000 2>/dev/null; exec "$0"`, driver)
+	cmd := exec.Command(driver)
 	w, _ := cmd.StdinPipe()
 	r, _ := cmd.StdoutPipe()
 	cmd.Stderr = os.Stderr
